@@ -137,8 +137,38 @@ class STok:
     def ndim(self):
         return len(self.shape)
 
+    def _gather(self, ks):
+        """selection of explicit index lists along some axes (dense -> blocks): contiguous ascending lists are slices,
+        anything else is a canonical ("gather", base, {axis: indices}) term; gathers compose"""
+        ks = list(ks) + [slice(None)] * (len(self.shape) - len(ks))
+        structured = isinstance(self.term, tuple) and self.term and self.term[0] in ("concat", "placed", "zeros")
+        if structured and all(isinstance(sl, slice) or (isinstance(sl, (list, tuple)) and list(sl) == list(range(sl[0], sl[0] + len(sl))) if sl else False)
+               for sl in ks):
+            conv = tuple(sl if isinstance(sl, slice) else slice(sl[0], sl[0] + len(sl)) for sl in ks)
+            return self[conv]
+        base, picks = self.term, {}
+        bshape = self.shape
+        if isinstance(base, tuple) and base and base[0] == "gather":
+            base, picks, bshape = base[1], dict(base[2]), base[3]
+        shape = []
+        for ax, (sl, d) in enumerate(zip(ks, self.shape)):
+            if isinstance(sl, slice):
+                if sl != slice(None):
+                    raise IndexError("mixed slice / index-list selection on an abstract block")
+                shape.append(d)
+                continue
+            idx = [int(i) for i in sl]
+            if any(i < 0 or i >= d for i in idx):
+                raise IndexError(f"index list {idx} out of range for axis {ax} of size {d}")
+            prev = picks.get(ax)
+            picks[ax] = tuple(prev[i] for i in idx) if prev is not None else tuple(idx)
+            shape.append(len(idx))
+        return STok(("gather", base, tuple(sorted(picks.items())), bshape), shape)
+
     def __getitem__(self, k):
         ks = k if isinstance(k, tuple) else (k,)
+        if any(isinstance(sl, (list, tuple)) for sl in ks):
+            return self._gather(ks)
         shape = []
         desc = []
         dims = list(self.shape)
